@@ -50,6 +50,8 @@ def _datas(tier, seed):
         out.append(("dupcol6x4", np.hstack([X, X[:, :1]]).tolist()))
         out.append(("scaled6x3", (X * np.array([1e2, 1.0, 1e-2])).tolist()))
         out.append(("tall8x4", fam.generic(8, 4, seed, j)))
+        rng = np.random.default_rng([seed, 1010, j])
+        out.append(("int6x3", rng.integers(-4, 5, size=(6, 3)).astype(float).tolist()))
         out.append(("rank2_6x4_x100", (np.array(fam.generic(6, 4, seed, j, kind="lowrank2")) * 100.0).tolist()))
         out.append(("dupcol6x4_x1e-3", (np.hstack([X, X[:, :1]]) * 1e-3).tolist()))
     return [(l, X) for l, X in out if X is not None]
@@ -113,6 +115,8 @@ def cases(group):
                         yield dict(X=X, y=y, alphas=grid, alpha_type=atype, method=method, scoring=scoring, fold=f, n_jobs=None)
                     yield dict(X=X, y=y, alphas=grid, alpha_type=atype, method=method, scoring=scoring, fold=dict(kind="kfold", shuffle=False, seed=None), n_jobs=2)
                     yield dict(X=X, y=y, alphas=grid, alpha_type=atype, method=method, scoring=scoring, fold=dict(kind="kfold", shuffle=True, seed=1), n_jobs=None, used=True)
+                    if group["label"].startswith("int"):
+                        yield dict(X=X, y=y, alphas=grid, alpha_type=atype, method=method, scoring=scoring, fold=dict(kind="kfold", shuffle=False, seed=None), n_jobs=None, int_dtype=True)
 
 
 def _rank_ok(s):
@@ -163,6 +167,7 @@ def check(case):
     X = np.array(case["X"], float)
     y = np.array(case["y"], float)
     n, m = X.shape
+    X_fit = X.astype(np.int64) if case.get("int_dtype") else X  # integer-valued data handed over with an integer dtype
     alphas = np.array(case["alphas"], float)
     f = case["fold"]
     if f["kind"] == "kfold":
@@ -183,7 +188,7 @@ def check(case):
         try:
             if case.get("used"):  # a USED estimator: fitted before on other data of the same shape
                 model.fit(X[::-1, ::-1] * 0.5 + 0.25, y[::-1] * -1.5 + 0.5)
-            model.fit(X.copy(), y.copy())
+            model.fit(X_fit.copy(), y.copy())
         except Exception as e:
             return r.fail("crash:%s" % type(e).__name__, repr(e))
     # ---- reference
